@@ -440,6 +440,32 @@ fn case<G: CurveTag>(bytes: &[u8], col: &mut Collector) -> Result<(), Failure> {
                 vec![BatchMember { prog: &d.prog, commitments: &d.commitments, proof }, BatchMember { prog: o, commitments: &d.commitments, proof }],
             ));
         }
+        // deviations that cancel under weights in a small integer ratio: constants off by
+        // +a·3 and -b·3 at two batch positions (with or without an honest member in between)
+        let mut scaled: Vec<Program> = vec![];
+        if d.kind == "constraint-changed:constant" || d.kind == "violated-constraint-added" {
+            for e in [ScalarSpec::Small(3), ScalarSpec::Small(6), ScalarSpec::Small(9), ScalarSpec::NegSmall(3), ScalarSpec::NegSmall(6), ScalarSpec::NegSmall(9)] {
+                let mut o = d.prog.clone();
+                for l in lists(&o) {
+                    for op in list_mut(&mut o, l).iter_mut() {
+                        if let Op::Constrain { err: Some(x), .. } = op {
+                            *x = e.clone();
+                        }
+                    }
+                }
+                scaled.push(o);
+            }
+        }
+        if scaled.len() == 6 {
+            let m = |i: usize| BatchMember { prog: &scaled[i], commitments: &d.commitments, proof };
+            let h = || BatchMember { prog: &prog, commitments: &p.commitments, proof };
+            // indices: 0:+3 1:+6 2:+9 3:-3 4:-6 5:-9
+            batches.push(("weighted-opposites(+2,-1)", vec![m(1), m(3)]));
+            batches.push(("weighted-opposites(+1,-2)", vec![m(0), m(4)]));
+            batches.push(("weighted-opposites(+3,honest,-1)", vec![m(2), h(), m(3)]));
+            batches.push(("weighted-opposites(+1,honest,-3)", vec![m(0), h(), m(5)]));
+            batches.push(("weighted-opposites(+3,-2)", vec![m(2), m(4)]));
+        }
         for (name, members) in batches {
             let (r, pn) = run_batch::<G>(&members, 256, chi.byte() as u64);
             if pn.is_some() {
